@@ -96,6 +96,9 @@ func main() {
 	add("C06-F19", "open", tmplgen.ScopeCommentQuote,
 		"HTML comments are lexed as markup: a tag with an unbalanced quote inside a comment (<!-- <a title=\"x> -->) shifts the lexer's attribute state, so a later value in HTML text is shown in tag context, where <!-- passes",
 		c06.Witness("finding:C06-F19", "index.html", html("<!-- don't <a title=\"x> here --><p>Say \"{{ v0 }}\" now</p><p>end</p>"), str, s("<!--")))
+	add("C06-F20", "open", tmplgen.ScopeImportMap,
+		"script elements of type importmap and speculationrules are parsed as JSON by browsers but lexed as HTML: values inside their strings are HTML-escaped, so a backslash or a line terminator breaks the JSON string",
+		c06.Witness("finding:C06-F20", "index.html", html("<script type=\"importmap\">{\"imports\": {\"a\": \"/x/{{ v0 }}\", \"b\": \"/y/z.js\"}}</script>"), str, s("\\")))
 	b, _ := json.MarshalIndent(fs, "", " ")
 	os.WriteFile("props/c06/findings.json", append(b, '\n'), 0o644)
 }
